@@ -68,7 +68,8 @@ def suite_(repo, pre):
     return passed, failed, out
 
 def demo_(repo, name, pre):
-    rc, out = sh(pre + f"cargo test --offline --test {name} 2>&1", repo, timeout=1500)
+    feat = "--features verif " if 'feature = "verif"' in open(f"{repo}/tests/{name}.rs").read() else ""   # (a demonstration may use the sequence-origin hook)
+    rc, out = sh(pre + f"cargo test --offline {feat}--test {name} 2>&1", repo, timeout=1500)
     res = re.findall(r"test result: (\w+)\. (\d+) passed; (\d+) failed", out)
     tail = [l[:300] for l in out.splitlines() if "panicked at" in l or re.match(r"^test .* \.\.\. ", l) or l.startswith("error")][:10]
     if not res:
